@@ -545,21 +545,21 @@ Lemma find_app {A} (f : A -> bool) l1 l2 :
   find f (l1 ++ l2) = match find f l1 with Some x => Some x | None => find f l2 end.
 Proof. induction l1 as [|x l1 IH]; simpl; [reflexivity|]. destruct (f x); auto. Qed.
 
-Lemma clone_inputs_In allow m ins ins' w :
-  clone_inputs allow m ins = Some ins' -> In (Some w) ins -> In (Some (vm_apply m w)) ins'.
+Lemma clone_inputs_In allow own m ins ins' w :
+  clone_inputs allow own m ins = Some ins' -> In (Some w) ins -> In (Some (vm_apply m w)) ins'.
 Proof.
   revert ins'. induction ins as [|[v|] r IH]; intros ins' C H; simpl in *; [contradiction| |].
   - destruct (vm_get m v) as [x|] eqn:G.
-    + destruct (clone_inputs allow m r) as [r'|]; [|discriminate]. inversion C; subst. simpl.
+    + destruct (clone_inputs allow own m r) as [r'|]; [|discriminate]. inversion C; subst. simpl.
       destruct H as [H|H].
       * inversion H; subst. left. unfold vm_apply. rewrite G. reflexivity.
       * right. apply IH; auto.
-    + destruct allow; [|discriminate].
-      destruct (clone_inputs true m r) as [r'|]; [|discriminate]. inversion C; subst. simpl.
+    + destruct (allow && negb (existsb (v_eqb v) own)); [|discriminate].
+      destruct (clone_inputs allow own m r) as [r'|]; [|discriminate]. inversion C; subst. simpl.
       destruct H as [H|H].
       * inversion H; subst. left. unfold vm_apply. rewrite G. reflexivity.
       * right. apply IH; auto.
-  - destruct (clone_inputs allow m r) as [r'|]; [|discriminate]. inversion C; subst. simpl.
+  - destruct (clone_inputs allow own m r) as [r'|]; [|discriminate]. inversion C; subst. simpl.
     destruct H as [H|H]; [discriminate|]. right. apply IH; auto.
 Qed.
 
@@ -611,18 +611,18 @@ Proof.
     + inversion F; subst. split; assumption.
 Qed.
 
-Lemma clone_nodes_ok cfgs h allow : forall nodes pend m next nodes' names' next',
+Lemma clone_nodes_ok cfgs h allow ownv : forall nodes pend m next nodes' names' next',
   pend_rank pend -> rank_pres m -> nodes_ok cfgs nodes ->
-  clone_nodes h allow pend m next nodes = Some (nodes', names', next') -> nodes_ok cfgs nodes'.
+  clone_nodes h allow ownv pend m next nodes = Some (nodes', names', next') -> nodes_ok cfgs nodes'.
 Proof.
   induction nodes as [|[n nd] r IH]; intros pend m next nodes' names' next' Hp Hr Hn C; simpl in C.
   - inversion C; subst. constructor.
   - destruct (flush (depth h (node_scope h n)) pend m) as [pend1 m1] eqn:Fl.
     destruct (flush_rank _ _ _ _ _ Hp Hr Fl) as [Hp1 Hr1].
-    destruct (clone_inputs _ m1 (n_in nd)) as [ins'|] eqn:Ci; [|discriminate].
+    destruct (clone_inputs _ _ m1 (n_in nd)) as [ins'|] eqn:Ci; [|discriminate].
     set (outs' := fresh_from next (n_out nd)) in *.
     set (own := rev (combine (n_out nd) outs')) in *.
-    destruct (clone_nodes h allow ((depth h (node_scope h n), own) :: pend1) m1
+    destruct (clone_nodes h allow ownv ((depth h (node_scope h n), own) :: pend1) m1
                 (next + Z.of_nat (length (n_out nd))) r) as [[[r' nm'] nx']|] eqn:Cr; [|discriminate].
     inversion C; subst; clear C. inversion Hn as [|? ? Hnd Hr']; subst.
     assert (Hown : rank_pres own) by (apply rank_pres_rev; apply fresh_from_rank).
@@ -643,7 +643,7 @@ Qed.
 Lemma clone_inv h deep allow : DevInv h -> DevInv (fst (clone h deep allow)).
 Proof.
   intros [Hc Hn]. unfold clone.
-  destruct (clone_nodes h _ _ _ _ (s_nodes h)) as [[[nodes' names'] next']|] eqn:C; [|split; assumption].
+  destruct (clone_nodes h _ _ _ _ _ (s_nodes h)) as [[[nodes' names'] next']|] eqn:C; [|split; assumption].
   simpl. split; [exact Hc|]. simpl. eapply clone_nodes_ok; [constructor | | exact Hn | exact C].
   apply rank_pres_rev. apply fresh_from_rank.
 Qed.
